@@ -1,6 +1,7 @@
 package main
 
 import (
+	"go/types"
 	"fmt"
 	"go/constant"
 	"go/token"
@@ -51,6 +52,7 @@ func checkC19(c *Ctx) {
 	c.Rule("C19.2", "self-framing alphabet: integer verb on an integer, upper-case hex verb without space/# flag on a byte slice; neither alphabet contains sep or term", 1)
 	c.Rule("C19.3", "fragmentation-proof decoding: only one-byte reads with checked count; an error delivered together with the byte does not lose the byte; one record per call (return at the first terminator)", 3)
 	c.Rule("C19.4", "no reachable panic on malformed lines in ReadAndConvert", 1)
+	c.Rule("C19.5", "the decoder's conversions invert the encoder's verbs: the decimal text of every int32 time stamp converts back to it and the upper-case hex text of every message converts back to its bytes, with a nil error, on every path", 2)
 
 	read := p.Func("drivers/midicat", "Read")
 	rac := p.Func("drivers/midicat", "ReadAndConvert")
@@ -169,6 +171,112 @@ func checkC19(c *Ctx) {
 	// ---- C19.4
 	ps := NewPanicScan(p, scope)
 	ps.Check(c, "C19.4", scope)
+	// ---- C19.5 the decoder's conversions invert the encoder's verbs
+	conversionsInvert(c, "C19.5", scope)
+}
+
+// conversionsInvert: the two conversion helpers of the decoder — []byte -> (int32, error) for the text before the
+// separator, []byte -> ([]byte, error) for the text after it — are interpreted abstractly on the decimal text of a
+// symbolic int32 (whole range) and on the hex text of a symbolic payload of any length >= 1: every path must return the
+// original value and a nil error.
+func conversionsInvert(c *Ctx, rule string, scope []*ssa.Function) {
+	p := c.P
+	var convDelta, convHex []*ssa.Function
+	for _, f := range scope {
+		sig := f.Signature
+		if sig.Recv() != nil || sig.Params().Len() != 1 || sig.Results().Len() != 2 || !isErrorType(sig.Results().At(1).Type()) {
+			continue
+		}
+		if !tByteSlice(p, sig.Params().At(0).Type()) {
+			continue
+		}
+		r0 := sig.Results().At(0).Type()
+		if b, ok := r0.Underlying().(*types.Basic); ok && b.Kind() == types.Int32 {
+			convDelta = append(convDelta, f)
+		}
+		if tByteSlice(p, r0) {
+			convHex = append(convHex, f)
+		}
+	}
+	if len(convDelta) != 1 || len(convHex) != 1 {
+		c.Unk(rule, "conversion helpers of the decoder (roles: []byte -> (int32, error), []byte -> ([]byte, error))", "-", fmt.Sprintf("not uniquely resolved (%d / %d candidates)", len(convDelta), len(convHex)))
+		return
+	}
+	{
+		f := convDelta[0]
+		c.Fn(FuncName(f))
+		ex := NewExec(p)
+		st := ex.NewState()
+		t := mkSym(ex.syms.Get("t", 32, true))
+		txt := ex.mkDecText(st, "t", t)
+		ok, why, n := true, "", 0
+		for _, o := range ex.Call(st, f, []Val{txt}, nil) {
+			n++
+			if o.Panic || len(problemEvents(o.St.Events)) > 0 {
+				ok, why = false, "may panic on a well-formed time stamp: "+o.Msg+fmtEvents(problemEvents(o.St.Events))
+				continue
+			}
+			ev, _ := o.Ret[1].(*IfaceV)
+			if ev == nil || !ev.Nil {
+				lo, hi := o.St.Range(t)
+				ok, why = false, fmt.Sprintf("rejects (or may reject) the decimal text of a time stamp in [%d,%d] [%s]", lo, hi, outcomeWitness(o))
+				continue
+			}
+			rv, _ := o.Ret[0].(*IntV)
+			if rv == nil || !(o.St.sameInt(rv, t) || func() bool { eq, k := o.St.Decide("==", rv, t); return k && eq }()) {
+				ok, why = false, fmt.Sprintf("returns %s for the text of t [%s]", valString(o.Ret[0]), outcomeWitness(o))
+			}
+		}
+		for u := range ex.Unsupported {
+			ok, why = false, "unmodelled construct: "+u
+		}
+		if ex.Budget {
+			ok, why = false, "budget"
+		}
+		c.Check(ok && n > 0, rule, "time stamp text -> int32", p.Pos(f.Pos()), fmt.Sprintf("%d partition(s): the decimal text of every int32 converts back to it, error nil", n), why)
+	}
+	{
+		f := convHex[0]
+		c.Fn(FuncName(f))
+		ex := NewExec(p)
+		st := ex.NewState()
+		payload := ex.unknownSlice(st, types.Typ[types.Uint8], "msg", 1)
+		txt := ex.mkHexText(st, "msg", payload)
+		wantSegs, _ := ex.sliceSegs(st, payload)
+		ok, why, n := true, "", 0
+		for _, o := range ex.Call(st, f, []Val{txt}, nil) {
+			n++
+			if o.Panic || len(problemEvents(o.St.Events)) > 0 {
+				ok, why = false, "may panic on well-formed hex text: "+o.Msg+fmtEvents(problemEvents(o.St.Events))
+				continue
+			}
+			ev, _ := o.Ret[1].(*IfaceV)
+			if ev == nil || !ev.Nil {
+				ok, why = false, "rejects (or may reject) the hex text of a message ["+outcomeWitness(o)+"]"
+				continue
+			}
+			rs, _ := o.Ret[0].(*SliceV)
+			if rs == nil || rs.Unk || rs.Nil {
+				ok, why = false, "result not tracked"
+				continue
+			}
+			got, okG := ex.sliceSegs(o.St, rs)
+			if !okG || !o.St.sameInt(rs.Len, payload.Len) {
+				ok, why = false, fmt.Sprintf("returns %s bytes for a %s-byte message", rs.Len, payload.Len)
+				continue
+			}
+			if d := segsDiffer(o.St, got, wantSegs); d != "" {
+				ok, why = false, "returns "+arrayStringIn(o.St, &ArrayV{Segs: got})+" for the hex text of the message ("+d+")"
+			}
+		}
+		for u := range ex.Unsupported {
+			ok, why = false, "unmodelled construct: "+u
+		}
+		if ex.Budget {
+			ok, why = false, "budget"
+		}
+		c.Check(ok && n > 0, rule, "hex text -> message bytes", p.Pos(f.Pos()), fmt.Sprintf("%d partition(s): the hex text of every message (any length >= 1) converts back to its bytes, error nil", n), why)
+	}
 }
 
 func variadicArgTypes(call ssa.CallInstruction) (string, string) {
